@@ -77,6 +77,8 @@ class TraceCheck:
             faults["abort@seam"] = 1
         if tr.probes.get("abort_stmt_fired"):
             faults["abort@stmt"] = 1
+        if tr.probes.get("abort_deepcopy_fired"):
+            faults["abort@deepcopy"] = 1
         ncaught = len(tr.caught)
         if ncaught:
             faults["caught"] = ncaught
@@ -147,8 +149,14 @@ class C08(TraceCheck):
             cfg = {"backend": rng.choice(W.DICT_BACKENDS), "bitlength": rng.choice([8, 16]), "resolution": 2,
                    "max_nesting": rng.choice([1, 2]), "p_try": 0.0, "fxp": False}
             plan = BlockGen(rng, cfg).plan()
-            return {"plan": plan, "faults": {"abort_seam": 1 + int(rng.random() ** 1.5 * 150)}, "block": True,
+            case = {"plan": plan, "faults": {"abort_seam": 1 + int(rng.random() ** 1.5 * 150)}, "block": True,
                     "target": rng.choice(["exit", "exit", "enter", None]), "pick": rng.randrange(1 << 20)}
+            if rng.random() < 0.3:
+                # the snapshot of the tracked variables (copy.deepcopy inside the block API) fails on its n-th call:
+                # a variable that cannot be copied, or memory running out
+                case["faults"] = {"abort_deepcopy": 1 + int(rng.random() ** 1.5 * 40)}
+                case["target"] = None
+            return case
         return TraceCheck.gen(self, rng, i, tier)
 
     def run(self, case):
@@ -164,16 +172,38 @@ class C08(TraceCheck):
             hits = p0.w.rec.frame_hits.get(case["target"], [])
             if hits:
                 faults["abort_seam"] = hits[case["pick"] % len(hits)]
-        tr = T.TraceRun(case["plan"], faults, props=()).run()
+        hook = None
+        if faults.get("abort_deepcopy"):
+            nth = faults["abort_deepcopy"]
+
+            def hook(t):
+                import copy as _copy
+                state = {"n": 0}
+
+                class FaultyCopy:
+                    copy = staticmethod(_copy.copy)
+
+                    @staticmethod
+                    def deepcopy(x, memo=None):
+                        state["n"] += 1
+                        if state["n"] == nth:
+                            t.probe("abort_deepcopy_fired")
+                            raise W.InjectedFault("injected failure of deepcopy call %d" % nth)
+                        return _copy.deepcopy(x) if memo is None else _copy.deepcopy(x, memo)
+                t.w.branching.copy = FaultyCopy
+        tr = T.TraceRun(case["plan"], {k: v for k, v in faults.items() if k != "abort_deepcopy"}, props=(),
+                        world_hook=hook).run()
         viol = []
         rt = tr.w.runtime
-        fired = bool(tr.probes.get("abort_seam_fired"))
+        fired = bool(tr.probes.get("abort_seam_fired") or tr.probes.get("abort_deepcopy_fired"))
         if fired and tr.outcome == "raised:InjectedFault" and tr.exc_plan_line in tr.gen.api_lines:
             depth = tr.gen.api_lines[tr.exc_plan_line]
-            in_exit = any(f in ("exit", "end") for f in tr.exc_lib_frames)
+            in_exit = any(f in ("exit", "end", "enter", "backup") for f in tr.exc_lib_frames)
             tr.probe("abort_inside_block_api")
             if in_exit:
                 tr.probe("abort_inside_block_exit")
+            if any(f in ("enter", "backup") for f in tr.exc_lib_frames):
+                tr.probe("abort_inside_block_enter")
             if depth == 0 and in_exit:
                 g0, ie0, one0 = tr.w.initial
                 bad = []
@@ -185,7 +215,9 @@ class C08(TraceCheck):
                     bad.append("ignore_errors")
                 if bad:
                     viol.append({"property": "C08", "oracle": "guard_leak",
-                                 "site": {"how": "exception", "fields": "+".join(bad), "where": "block_exit"},
+                                 "site": {"how": "exception", "fields": "+".join(bad),
+                                          "where": "block_enter" if any(f in ("enter", "backup") for f in tr.exc_lib_frames)
+                                          else "block_exit"},
                                  "detail": "exception raised while a top-level block was being closed (%s): %s "
                                            "not restored" % ("/".join(tr.exc_lib_frames[-3:]), bad)})
         return self.result(tr, case, viol)
@@ -350,8 +382,8 @@ REAL_PROVER = ("real: pysnark/runtime.py, boolean.py, fixedpoint.py, branching.p
                "the checker's own evaluation of every recorded constraint modulo the hard-coded prime; stub: "
                "`flatbuffers` (import only, for the zkinterface backends)")
 
-VALUE_OPS = {"let": 10, "assert": 0, "guarded": 0, "ite_call": 0, "set_ie": 0, "val": 0, "array": 0,
-             "aset": 0, "aget": 0, "fxp": 1.0, "arith": 2, "div": 6, "bits": 5, "cmp": 6, "shift": 1.5,
+VALUE_OPS = {"let": 10, "assert": 0, "guarded": 0, "ite_call": 0, "set_ie": 0, "val": 0, "array": 1.5,
+             "aset": 0.5, "aget": 2.5, "fxp": 1.0, "arith": 2, "div": 6, "bits": 5, "cmp": 6, "shift": 1.5,
              "pow": 1, "unary": 3, "boolop": 3, "check": 4, "ite": 3, "tobits": 2, "tobool": 1}
 
 
@@ -838,6 +870,8 @@ class C16(ProverCheck):
         bl = cfg["bitlength"]
         if i % 2 == 0:
             n = rng.randrange(0, bl + 3)
+            if rng.random() < 0.1:
+                n = rng.choice([63, 64, 65, 127, 128, 129, 200, 250])    # widths far beyond the global bitlength
             kind = rng.choice(["bits", "positive"])
             A = {"ref": 0, "t": "I"}
             if kind == "bits":
@@ -846,6 +880,9 @@ class C16(ProverCheck):
                 stmt = {"s": "assert", "kind": "positive", "args": [A], "bits": n}
             vec = sorted({0, 1, (1 << n) >> 1, (1 << n) - 1, 1 << n, (1 << n) + 1, -1, (1 << bl) - 1, 1 << bl,
                           (1 << bl) + 1, rng.randrange(0, 1 << n), 2, 5})
+            if n > 20:
+                vec = sorted({0, 1, (1 << n) >> 1, (1 << n) - 1, 1 << n, -1, rng.randrange(0, 1 << n),
+                              (1 << (n - 1)) + (1 << (n // 2)) + 1})
             plan = {"cfg": cfg, "inputs": [{"kind": "priv", "t": "I", "v": 0}], "body": [stmt]}
             return {"mode": "width", "n": n, "plan": plan, "vectors": [[v] for v in vec],
                     "seed": rng.randrange(1 << 30)}
@@ -1037,14 +1074,18 @@ FILE_MIX = {"let": 10, "assert": 2, "guarded": 1, "ite_call": 0.3, "set_ie": 0, 
             "unary": 2, "boolop": 1, "check": 1, "ite": 1, "tobits": 0.3, "tobool": 0.3, "fxp": 1}
 
 
-def prove_in_scratch(tr):
+def prove_in_scratch(tr, stale=None):
     """Call the real backend.prove() of the run's world in a private scratch directory and
-    return {filename: bytes}."""
+    return {filename: bytes}.  `stale` = file names to pre-populate with the (long) artefacts of an
+    "earlier, larger proof" in the same directory."""
     d = tempfile.mkdtemp(prefix="prove-")
     old = os.getcwd()
     os.chdir(d)
     out = {}
     try:
+        for fn in stale or ():
+            with open(os.path.join(d, fn), "wb") as f:
+                f.write(b"\xa5" * 200000)
         buf = io.StringIO()
         with contextlib.redirect_stdout(buf), contextlib.redirect_stderr(buf):
             tr.w.backend.prove()
@@ -1136,16 +1177,29 @@ def check_zkif_files(files, rec, p):
         except D.FormatError as e:
             yield "file_malformed", fn + ":" + e.where, e.what
             return
-    types = {fn: sorted(m["type"] for m in dec[fn]) for fn in dec}
-    if types["computation.zkif"] != ["constraints", "header", "witness"]:
-        yield "file_ne_trace", "computation.zkif:messages", "messages %r" % types["computation.zkif"]
+    # the format allows a constraint system / witness to be split over several messages: merge them
+    types = {fn: sorted(set(m["type"] for m in dec[fn])) for fn in dec}
+    if types["computation.zkif"] != ["constraints", "header", "witness"] or \
+            sum(1 for m in dec["computation.zkif"] if m["type"] == "header") != 1:
+        yield "file_ne_trace", "computation.zkif:messages", "messages %r" % [m["type"] for m in dec["computation.zkif"]][:8]
         return
-    if types["circuit.zkif"] != ["constraints", "header"]:
+    if types["circuit.zkif"] != ["constraints", "header"] or \
+            sum(1 for m in dec["circuit.zkif"] if m["type"] == "header") != 1:
         oracle = "witness_in_verifier_file" if "witness" in types["circuit.zkif"] else "file_ne_trace"
-        yield oracle, "circuit.zkif:messages", "messages %r" % types["circuit.zkif"]
+        yield oracle, "circuit.zkif:messages", "messages %r" % [m["type"] for m in dec["circuit.zkif"]][:8]
         return
     for fn in dec:
-        by = {m["type"]: m for m in dec[fn]}
+        by = {}
+        for m in dec[fn]:
+            if m["type"] == "header":
+                by["header"] = m
+            elif m["type"] == "constraints":
+                by.setdefault("constraints", {"constraints": []})["constraints"].extend(m["constraints"])
+            elif m["type"] == "witness":
+                w = by.setdefault("witness", {"assigned": {"ids": [], "values": []}})
+                if m["assigned"]:
+                    w["assigned"]["ids"].extend(m["assigned"]["ids"])
+                    w["assigned"]["values"].extend(m["assigned"]["values"])
         h = by["header"]
         inst = h["instance"] or {"ids": [], "values": []}
         if inst["ids"] != list(range(1, npub + 1)):
@@ -1227,6 +1281,14 @@ class FileCheck(TraceCheck):
             k = rng.randrange(0, len(plan["body"]) + 1)
             plan["body"].insert(k, {"s": "checkpoint_prove"})
             plan["body"].append({"s": "val", "a": {"ref": rng.randrange(8), "t": "I"}, "try": True})
+        bulk = None
+        u = rng.random()
+        if u < 0.004:
+            bulk = rng.choice([66000, 70000])       # beyond any 16-bit chunk / counter
+        elif u < 0.02:
+            bulk = rng.choice([300, 5000])
+        if bulk:
+            plan["body"].insert(rng.randrange(0, len(plan["body"]) + 1), {"s": "bulk_priv", "n": bulk})
         g = P.Gen(rng, cfg)
         alt = []
         for inp in plan["inputs"]:
@@ -1238,7 +1300,7 @@ class FileCheck(TraceCheck):
                 alt.append(1 - inp["v"])
             else:
                 alt.append(inp["v"] + 1.0)
-        return {"plan": plan, "alt_inputs": alt}
+        return {"plan": plan, "alt_inputs": alt, "stale_dir": rng.random() < 0.2}
 
     def files_problems(self, files, rec):
         raise NotImplementedError
@@ -1248,7 +1310,11 @@ class FileCheck(TraceCheck):
         rec = tr.w.rec
         viol = []
         probes = dict(tr.probes)
-        files = prove_in_scratch(tr)
+        stale = None
+        if case.get("stale_dir"):
+            stale = ARTEFACTS[case["plan"]["cfg"]["backend"]]
+            probes["proved_over_stale_larger_files"] = 1
+        files = prove_in_scratch(tr, stale)
         p = rec.p
         for oracle, where, detail in self.files_problems(files, rec):
             s = {"where": where.split(":")[0] + ":" + where.split(":")[-1] if ":" in where else where,
@@ -1422,7 +1488,8 @@ class C18(TraceCheck):
         cfg = {"inputs": [i["v"] for i in plan["inputs"]], "autoprove": case["autoprove"]}
         pre = {}
         if case["stale"]:
-            pre = {fn: b"STALE ARTEFACT OF AN EARLIER RUN " + fn.encode() for fn in ARTEFACTS[backend]}
+            pre = {fn: b"STALE ARTEFACT OF AN EARLIER, LARGER RUN " + fn.encode() + b"\xa5" * 50000
+                   for fn in ARTEFACTS[backend]}
         src = "_rt.bitlength = %d\n_fp = __import__('pysnark.fixedpoint').fixedpoint\n_fp.resolution = %d\n" % (
             plan["cfg"]["bitlength"], plan["cfg"]["resolution"]) + X.body_source(plan) + "\n__term__('end-of-script')\n"
         r = X.run_child(src, cfg, X.child_env(backend), pre)
@@ -2261,14 +2328,26 @@ class C09(TraceCheck):
         g = BlockGen(rng, cfg)
         plan = g.plan()
         alt = [rng.choice([0, 1, 2, 3, 4, 5, 6, 7]) for _ in plan["inputs"]]
+        if rng.random() < 0.25:
+            plan["in_function"] = True      # the program is a function with its own BranchingValues, called twice
         return {"plan": plan, "alt_inputs": alt}
 
     def run(self, case):
         plan = case["plan"]
-        tr = T.TraceRun(plan, props=("C01",)).run()
-        n_out, n_vals, n_src = T.run_native(plan)
+        alt_in = list(case.get("alt_inputs", [])) + [i["v"] for i in plan["inputs"]][len(case.get("alt_inputs", [])):]
+        tr = T.TraceRun(plan, props=("C01",))
+        tr.alt_inputs = alt_in
+        tr.run()
+        n_out, n_vals, n_src = T.run_native(plan, alt=alt_in)
+        if plan.get("in_function"):
+            # compare call by call
+            n_rets = list(T.run_native.last_rets)
+            n_vals = {"call%d.%s" % (i, k): v for i, r in enumerate(n_rets) for k, v in r.items()}
+            tr.tracked = {"call%d.%s" % (i, k): v for i, r in enumerate(tr.rets) for k, v in r.items()}
         viol = []
         probes = dict(tr.probes)
+        if plan.get("in_function"):
+            probes["program_in_function_called_twice"] = 1
 
         def add(oracle, site, detail):
             if not any(v["oracle"] == oracle and v["site"] == site for v in viol):
@@ -2289,8 +2368,10 @@ class C09(TraceCheck):
             probes["twin_compared"] = 1
             nt = P.plan_digest(plan) if kinds else None
             # independence of the conditions
-            alt = list(case.get("alt_inputs", [])) + [i["v"] for i in plan["inputs"]][len(case.get("alt_inputs", [])):]
-            tr2 = T.TraceRun(plan, inputs=alt, props=()).run()
+            alt = alt_in
+            tr2 = T.TraceRun(plan, inputs=alt, props=())
+            tr2.alt_inputs = [i["v"] for i in plan["inputs"]]
+            tr2.run()
             if tr2.outcome == "completed":
                 d = segment_diff(tr, tr2)
                 if d is not None:
@@ -2471,6 +2552,12 @@ class C15(ProverCheck):
             narr = 2
         for _ in range(rng.randrange(1, 9)):
             ix = [index(d) for d in range(len(dims))]
+            if narr == 1 and rng.random() < 0.12:
+                # an array derived by scalar arithmetic (k = 0 / 1 are the neutral elements): a new object
+                body.append({"s": "aderive", "arr": 0, "how": rng.choice(["add", "radd", "mul", "rmul"]),
+                             "k": rng.choice([0, 1, 2, -1])})
+                narr = 2
+                continue
             arr = rng.randrange(narr) if narr == 2 else 0
             chained = two_d and rng.random() < 0.25
             if two_d and rng.random() < 0.2:
@@ -2504,7 +2591,7 @@ class C15(ProverCheck):
                 add("unsat_constraint", {"op": v["site"].get("op")}, v["detail"])
         secret_access = any(isinstance(s.get("ix") or (s.get("e") or {}).get("ix"), list) and
                             any("ref" in i for i in (s.get("ix") or s["e"]["ix"])) for s in plan["body"]
-                            if s.get("s") != "array")
+                            if s.get("s") not in ("array", "aderive"))
         t_caught = [(s, c) for (s, c, _) in tr.caught]
         if tr.outcome != "completed" or n_out != "completed":
             raise W.HarnessError("array history did not complete: %s / %s %s" % (tr.outcome, n_out, tr.outcome_msg))
@@ -2544,7 +2631,7 @@ class C15(ProverCheck):
             trace = PV.Trace(tr)
             if not trace.unsat(trace.base_assignment()) and trace.hints and len(trace.cons) < 400:
                 atk = PV.Attack(trace, PV.plan_consts(plan))
-                for lies, v, a, rep in atk.search(rng, plan["cfg"]["bitlength"], 500, pairs=False):
+                for lies, v, a, rep in atk.search(rng, plan["cfg"]["bitlength"], 500, pairs=True):
                     s = {"op": v[1]["desc"].get("op"), "lie_scale": atk.lie_scale(a, plan["cfg"]["bitlength"])}
                     add("second_assignment", s, "lies %r move %s" % (lies, v[1]["name"]))
                     break
@@ -2576,15 +2663,15 @@ class C15(ProverCheck):
                               [("ref" in i) for i in (s.get("ix") or s.get("e", {}).get("ix") or [])],
                               bool(s.get("chained") or s.get("e", {}).get("chained")), len(plan["body"][0].get("rows") or []),
                               len(plan["body"][0].get("els") or []), bool(tr.caught))) for s in plan["body"][1:]
-                       if s.get("s") != "array"]
+                       if s.get("s") not in ("array", "aderive")]
         return res
 
     def shrink_candidates(self, case):
         for c in P.shrink_plan_candidates(case):
             if c["plan"]["body"] and c["plan"]["body"][0].get("s") == "array" and \
                     len(c["plan"]["inputs"]) == len(case["plan"]["inputs"]) and \
-                    sum(1 for s in c["plan"]["body"] if s.get("s") == "array") == \
-                    sum(1 for s in case["plan"]["body"] if s.get("s") == "array"):
+                    sum(1 for s in c["plan"]["body"] if s.get("s") in ("array", "aderive")) == \
+                    sum(1 for s in case["plan"]["body"] if s.get("s") in ("array", "aderive")):
                 yield c
 
 
@@ -2621,8 +2708,11 @@ class C17(TraceCheck):
                 leaf = {"k": rng.choice([0, 1, 2, 3, 5, -2, 7]), "lt": "I"}
             elif k < 0.6:
                 leaf = {"k": rng.random() < 0.5, "lt": "B"}
-            elif k < 0.8:
+            elif k < 0.72:
                 leaf = {"k": rng.choice([0.5, 1.5, -2.25, 3.0, 0.0, 4.75]), "lt": "F"}
+            elif k < 0.8:
+                leaf = {"enum": rng.choice(["A", "B", "C"]), "lt": "I", "k": {"A": 3, "B": 7, "C": 0}[None] if False else None}
+                leaf["k"] = {"A": 3, "B": 7, "C": 0}[leaf["enum"]]
             else:
                 leaf = {"ref": rng.randrange(0, 8), "t": "I", "lt": "S"}
             leaves.append(leaf)
@@ -2795,6 +2885,21 @@ class C17(TraceCheck):
                 add("public_order", dict(site0, part="results"),
                     "public wires allocated for the results: %r, secret results in order: %r" % (got[len(exp_args):], exp_out))
             elif c["ret"] == nat:
+                # a boolean argument is a declared boolean: its public wire must be forced to 0/1
+                npub_before = sum(1 for e in rec.events[:c["ev0"]] if e[0] == "pub")
+                pos = 0
+                for l in leaves:
+                    if l["lt"] == "S":
+                        continue
+                    if l["lt"] == "B":
+                        saved = rec.pub[npub_before + pos]
+                        rec.pub[npub_before + pos] = 2
+                        if not rec.unsat():
+                            add("boolean_argument_not_constrained", site0,
+                                "boolean argument %d can be given the public value 2 without violating any constraint" % pos)
+                        rec.pub[npub_before + pos] = saved
+                        probes["bool_args_tampered"] = probes.get("bool_args_tampered", 0) + 1
+                    pos += 1
                 # tamper with each output's public value
                 npub_before = sum(1 for e in rec.events[:c["ev0"]] if e[0] == "pub")
                 base = len(exp_args) + npub_before
@@ -2988,7 +3093,7 @@ class C13(TraceCheck):
         nvars = rng.randrange(1, 5)
         ops = []
         for _ in range(rng.randrange(3, 25)):
-            k = rng.choice(["add", "add", "sub", "neg", "mul", "mul", "one", "zero"])
+            k = rng.choice(["add", "add", "sub", "neg", "mul", "mul", "one", "zero", "iadd", "isub", "imul"])
             a = rng.randrange(0, 64)
             b = a if rng.random() < 0.15 else rng.randrange(0, 64)
             sc = rng.choice([0, 1, -1, 2, 3, -7, 12345, p - 1, p, p + 1, -p, (1 << 256) + 5, rng.randrange(p)])
@@ -3076,6 +3181,22 @@ class C13(TraceCheck):
                 elif k == "zero":
                     r = b.zero()
                     mr = {}
+                elif k in ("iadd", "isub", "imul"):
+                    # augmented assignment on a *name bound to a pool member*: must not alter that member
+                    r = pool[a]
+                    if k == "iadd":
+                        r += pool[bb]
+                        mr = dict(model[a])
+                        for kk, c in model[bb].items():
+                            mr[kk] = (mr.get(kk, 0) + c) % p
+                    elif k == "isub":
+                        r -= pool[bb]
+                        mr = dict(model[a])
+                        for kk, c in model[bb].items():
+                            mr[kk] = (mr.get(kk, 0) - c) % p
+                    else:
+                        r *= sc
+                        mr = {kk: (c * sc) % p for kk, c in model[a].items()}
                 elif k == "add":
                     r = pool[a] + pool[bb]
                     mr = dict(model[a])
